@@ -87,6 +87,7 @@ func runC01(w *World, r *Report, tier string) {
 	r.Rule("R6", "interface-typed serialised fields are assigned by a hand-written UnmarshalXML of their parent type")
 	r.Rule("R7", "raw sinks: string fields reach the output unescaped only through the frozen table (innerxml/comment tags; element or attribute names built from a field in a hand-written MarshalXML)")
 	r.Rule("R8", "a hand-written MarshalXML returns nil without emitting a token only under conditions that read every serialised field")
+	r.Rule("R10", "independent emission: in a hand-written MarshalXML the tokens written for a field remain reachable when every edge asserting the non-emptiness of a different field is deleted — no field is written only when another one is set")
 	r.Rule("R9", "emission guards: in a hand-written MarshalXML every branch condition that depends on a field of the value is a plain emptiness test of that field (== \"\", == 0, len == 0, IsZero, is-set flag) — a guard on a derived value drops some non-empty values")
 
 	rows, problems := w.registryRows()
@@ -385,6 +386,7 @@ func runC01(w *World, r *Report, tier string) {
 			continue
 		}
 		c01Guards(w, r, tn, mf)
+		c01IndependentEmission(w, r, tn, mf)
 		isEmit := w.isCallTo("encoding/xml.Encoder.EncodeToken", "encoding/xml.Encoder.EncodeElement", "encoding/xml.Encoder.Encode")
 		var serialised []string
 		et := w.encodeTablesOf(T)
@@ -658,4 +660,129 @@ func (w *World) xmlNameGlobalsUsed(fn *ssa.Function) [][2]string {
 		}
 	})
 	return out
+}
+
+// recvFieldsOf: the top-level receiver fields the value v is computed from (through literals, conversions, locals).
+func recvFieldsOf(v ssa.Value, recv ssa.Value, out map[string]bool, seen map[ssa.Value]bool, depth int) {
+	if v == nil || seen[v] || depth > 12 {
+		return
+	}
+	seen[v] = true
+	if fp := fieldPath(v); len(fp) > 0 && rootOf(v) == recv {
+		out[fp[0].Name()] = true
+		return
+	}
+	switch x := v.(type) {
+	case *ssa.Alloc:
+		for _, rf := range *x.Referrers() {
+			switch st := rf.(type) {
+			case *ssa.Store:
+				if st.Addr == ssa.Value(x) {
+					recvFieldsOf(st.Val, recv, out, seen, depth+1)
+				}
+			case *ssa.FieldAddr, *ssa.IndexAddr:
+				for _, rf2 := range *st.(ssa.Value).Referrers() {
+					if s2, ok := rf2.(*ssa.Store); ok && s2.Addr == st.(ssa.Value) {
+						recvFieldsOf(s2.Val, recv, out, seen, depth+1)
+					}
+					// nested literal: &outer.Name then fields of it
+					if fa2, ok := rf2.(*ssa.FieldAddr); ok {
+						for _, rf3 := range *fa2.Referrers() {
+							if s3, ok := rf3.(*ssa.Store); ok && s3.Addr == ssa.Value(fa2) {
+								recvFieldsOf(s3.Val, recv, out, seen, depth+1)
+							}
+						}
+					}
+				}
+			}
+		}
+	case ssa.Instruction:
+		for _, op := range x.Operands(nil) {
+			if op != nil && *op != nil {
+				recvFieldsOf(*op, recv, out, seen, depth+1)
+			}
+		}
+	}
+}
+
+// c01IndependentEmission (R10): what a hand-written MarshalXML writes for one field must not depend on another field
+// being non-empty: with every edge that asserts the non-emptiness of a different receiver field deleted, the emission
+// must still be reachable.
+func c01IndependentEmission(w *World, r *Report, tn string, mf *ssa.Function) {
+	recv := ssa.Value(mf.Params[0])
+	// a value receiver is spilled to a local: treat that local as the receiver
+	for _, in := range mf.Blocks[0].Instrs {
+		if st, ok := in.(*ssa.Store); ok && st.Val == recv {
+			if al, ok := st.Addr.(*ssa.Alloc); ok {
+				recv = al
+			}
+		}
+	}
+	// edges asserting that receiver field G is non-empty
+	nonEmpty := map[string]EdgeSet{}
+	fieldOfForm := func(form string) string {
+		for _, pat := range []string{`^eq\("",field:[A-Za-z0-9_:]+\.([A-Za-z0-9_]+)`, `^eq\(0,field:[A-Za-z0-9_:]+\.([A-Za-z0-9_]+)`, `^eq\(nil,field:[A-Za-z0-9_:]+\.([A-Za-z0-9_]+)`, `^eq\(0,builtin\.len\(field:[A-Za-z0-9_:]+\.([A-Za-z0-9_]+)`, `^le\(builtin\.len\(field:[A-Za-z0-9_:]+\.([A-Za-z0-9_]+)`} {
+			if m := regexp.MustCompile(pat).FindStringSubmatch(form); m != nil {
+				return m[1]
+			}
+		}
+		return ""
+	}
+	for _, b := range mf.Blocks {
+		for si := range b.Succs {
+			c, truth, isIf := edgeAssertion(b, si)
+			if !isIf {
+				continue
+			}
+			cn := w.condNF(c, truth)
+			if !strings.HasSuffix(cn, "=false") {
+				continue // only edges on which "is empty" is false, i.e. the field is non-empty
+			}
+			g := fieldOfForm(strings.TrimSuffix(cn, "=false"))
+			if g == "" {
+				continue
+			}
+			if nonEmpty[g] == nil {
+				nonEmpty[g] = EdgeSet{}
+			}
+			nonEmpty[g][Edge{b, si}] = true
+		}
+	}
+	if len(nonEmpty) < 2 {
+		return // at most one guarded field: nothing can be entangled
+	}
+	n := 0
+	allInstrs(mf, func(in ssa.Instruction) {
+		c, ok := in.(*ssa.Call)
+		if !ok {
+			return
+		}
+		k := w.callKey(c)
+		if k != "encoding/xml.Encoder.EncodeToken" && k != "encoding/xml.Encoder.EncodeElement" && k != "encoding/xml.Encoder.Encode" {
+			return
+		}
+		fs := map[string]bool{}
+		recvFieldsOf(c.Call.Args[1], recv, fs, map[ssa.Value]bool{}, 0)
+		if len(fs) == 0 {
+			return
+		}
+		var names []string
+		for f := range fs {
+			names = append(names, f)
+		}
+		sort.Strings(names)
+		cut := EdgeSet{}
+		var others []string
+		for g, es := range nonEmpty {
+			if !fs[g] {
+				cut = cut.union(es)
+				others = append(others, g)
+			}
+		}
+		sort.Strings(others)
+		n++
+		cons := fmt.Sprintf("%s.MarshalXML#emit:%s", tn, strings.Join(names, "+"))
+		ok2 := reachable(entryLoc(mf), func(x ssa.Instruction) bool { return x == in }, nil, cut)
+		r.Check(ok2, "R10", cons, w.ipos(in), fmt.Sprintf("%s is written only when another field (one of %s) is non-empty: a value with %s set and those empty loses %s on a round trip", strings.Join(names, "+"), strings.Join(others, ", "), strings.Join(names, "+"), strings.Join(names, "+")), "reachable without any other field being non-empty")
+	})
 }
